@@ -351,8 +351,12 @@ func (s *server) auroraDeleteHandler(w http.ResponseWriter, r *http.Request) {
 
 		var err error
 
+		// the root chunk is removed last, and only when the pyramid lists it, i.e.
+		// when no other known file references it (it may be an inner chunk of one)
+		rootListed := false
 		for _, chunk := range chunkHashes {
 			if chunk.Cid.Equal(hash) {
+				rootListed = true
 				continue
 			}
 
@@ -368,6 +372,9 @@ func (s *server) auroraDeleteHandler(w http.ResponseWriter, r *http.Request) {
 			}
 		}
 
+		if !rootListed {
+			return nil
+		}
 		err = s.storer.Set(r.Context(), storage.ModeSetRemove, hash)
 		if err != nil {
 			if !errors.Is(err, driver.ErrNotFound) {
